@@ -62,9 +62,9 @@ pub fn generate(r: &mut Rng, allow_slow_algs: bool) -> Gen {
         list.push(json!({ "label": l, "data": d }));
     }
     let algs: &[&'static str] = if allow_slow_algs {
-        &["ed25519", "es256", "es384", "es512", "ps256", "ps384", "ps512"]
+        &["ed25519", "es256", "es384", "es512", "ps256", "ps384", "ps512", "es256-der", "es512-der"]
     } else {
-        &["ed25519", "es256", "es384"]
+        &["ed25519", "es256", "es384", "es384-der"]
     };
     let alg = *r.pick(algs);
     let hash_alg = *r.pick(&[None, None, Some("sha256"), Some("sha384"), Some("sha512")]);
